@@ -1,4 +1,5 @@
 import KoordVerif.Model.C18
+import KoordVerif.Model.C18Usage
 /-
 C18 — property theorems (DESIGN.md §4 C18).  All statements are about the executable model
 `Model/C18.lean`, for arbitrary threshold quantities, usages, pod sets, filter/evictor answers,
@@ -220,6 +221,34 @@ theorem orderNodes_sub (ord : List Nat) (ns : List Node) (n : Node) (hn : n ∈ 
     exact List.mem_of_find?_eq_some hi
   · exact (List.mem_filter.mp h).1
 
+theorem mem_insertBy {α} (le : α → α → Bool) (x a : α) (l : List α) :
+    a ∈ insertBy le x l ↔ a = x ∨ a ∈ l := by
+  induction l with
+  | nil => simp [insertBy]
+  | cons y ys ih =>
+    unfold insertBy
+    split
+    · simp
+    · simp only [List.mem_cons, ih]
+      constructor
+      · rintro (h | h | h)
+        · exact Or.inr (Or.inl h)
+        · exact Or.inl h
+        · exact Or.inr (Or.inr h)
+      · rintro (h | h | h)
+        · exact Or.inr (Or.inl h)
+        · exact Or.inl h
+        · exact Or.inr (Or.inr h)
+
+theorem mem_sortBy {α} (le : α → α → Bool) (a : α) (l : List α) : a ∈ sortBy le l ↔ a ∈ l := by
+  induction l with
+  | nil => simp [sortBy]
+  | cons x xs ih => simp [sortBy, mem_insertBy, ih]
+
+theorem sortSources_sub (score : Nat → Int) (ord : List Nat) (ns : List Node) (n : Node)
+    (hn : n ∈ sortSources score ord ns) : n ∈ ns :=
+  orderNodes_sub ord ns n ((mem_sortBy _ _ _).mp hn)
+
 /-- what is known about one Evict call of a pass over the source list `src`. -/
 def EvOK (dry nodeFit prod : Bool) (src : List Node) (e : Ev) : Prop :=
   dry = false ∧ e.prod = prod ∧ over e.usage e.high = true ∧ allPos e.avail = true ∧
@@ -431,7 +460,7 @@ theorem round_evict_sound (cfg : Cfg) (st : St) (r : RoundIn) (e : Ev)
   simp only [evictFromSources] at he
   rcases List.mem_append.mp he with h | h
   · obtain ⟨htg, hd, hpr, ho, hp, s, hs, hid, hh, hpod⟩ := balancePods_sound _ _ _ _ _ _ _ _ h
-    have hs1 := filterRealAbnormal_sub _ _ _ _ (orderNodes_sub _ _ _ hs)
+    have hs1 := filterRealAbnormal_sub _ _ _ _ (sortSources_sub _ _ _ _ hs)
     rw [mem_ofClass] at hs1
     have hprf : e.prod = false := hpr
     refine ⟨hd, ho, hp, s, hs1.1, hid, by simp [hprf, hs1.2], by simpa [hprf] using hh, ?_, ?_⟩
@@ -450,7 +479,7 @@ theorem round_evict_sound (cfg : Cfg) (st : St) (r : RoundIn) (e : Ev)
         refine ⟨t, ht.1, ?_, Or.inl ht.2⟩
         intro heq; rw [heq, hs1.2] at ht; cases ht.2
   · obtain ⟨htg, hd, hpr, ho, hp, s, hs, hid, hh, hpod⟩ := balancePods_sound _ _ _ _ _ _ _ _ h
-    have hs1 := filterRealAbnormal_sub _ _ _ _ (orderNodes_sub _ _ _ hs)
+    have hs1 := filterRealAbnormal_sub _ _ _ _ (sortSources_sub _ _ _ _ hs)
     rw [mem_ofClass] at hs1
     have hprt : e.prod = true := hpr
     refine ⟨hd, ho, hp, s, hs1.1, hid, by simp [hprt, hs1.2], by simpa [hprt] using hh, ?_, ?_⟩
@@ -559,13 +588,13 @@ theorem round_evict_gated (cfg : Cfg) (st : St) (r : RoundIn) (c : Cond) (hc : c
   rcases List.mem_append.mp he with h | h
   · obtain ⟨_, _, hpr, _, _, s, hs, hid, _⟩ := balancePods_sound _ _ _ _ _ _ _ _ h
     have hprf : e.prod = false := hpr
-    have hs0 := orderNodes_sub _ _ _ hs
+    have hs0 := sortSources_sub _ _ _ _ hs
     have hs1 := filterAbnormal_sub _ _ _ _ hs0
     rw [mem_ofClass] at hs1
     exact ⟨s, hs1.1, hid, by simpa [hprf] using filterAbnormal_gated c _ _ s (sub _) hs0⟩
   · obtain ⟨_, _, hpr, _, _, s, hs, hid, _⟩ := balancePods_sound _ _ _ _ _ _ _ _ h
     have hprt : e.prod = true := hpr
-    have hs0 := orderNodes_sub _ _ _ hs
+    have hs0 := sortSources_sub _ _ _ _ hs
     have hs1 := filterAbnormal_sub _ _ _ _ hs0
     rw [mem_ofClass] at hs1
     exact ⟨s, hs1.1, hid, by simpa [hprt] using filterAbnormal_gated c _ _ s (sub _) hs0⟩
@@ -674,8 +703,8 @@ def pod : Pod := ⟨1, false, true, [50], [50], true, true, true⟩
 def cold : Node := ⟨0, false, false, [10], [0], [30], [60], [10], [100], []⟩
 def hot : Node := ⟨1, false, false, [80], [20], [30], [60], [10], [100], [pod]⟩
 def mid : Node := ⟨1, false, false, [45], [20], [30], [60], [10], [100], [pod]⟩
-def rHot : RoundIn := ⟨2, false, 1, [cold, hot], [], fun _ => []⟩
-def rMid : RoundIn := ⟨2, false, 1, [cold, mid], [], fun _ => []⟩
+def rHot : RoundIn := ⟨2, false, 1, [cold, hot], [], fun _ => [], fun _ => 0, fun _ => 0, fun _ => []⟩
+def rMid : RoundIn := ⟨2, false, 1, [cold, mid], [], fun _ => [], fun _ => 0, fun _ => 0, fun _ => []⟩
 def cfg : Cfg := ⟨some ⟨2, 1⟩, 0, false⟩
 def ev : Ev := ⟨1, 1, false, true, [80], [60], [50], true, [50]⟩
 end Witness
@@ -702,5 +731,746 @@ example : ([Mark.abn, .abn].foldl (Det.step ⟨2, 1⟩) Det.fresh).anomaly = fal
 -- the loop stops after one call although a second removable pod is left
 example : (evictLoop false false 1 [60] [80] [50]
     [⟨1, false, true, [50], [50], true, true, true⟩, ⟨2, false, true, [5], [5], true, true, true⟩]).evs.length = 1 := by decide
+
+
+/-! ### measured usage (getNodeUsage): what counts as PROD usage -/
+
+/-- the filter of `measuredProdUsage`: the entry's namespace/name is in `prodPodsMap`. -/
+def countsAsProd (pods : List PodRef) (m : MetricEntry) : Bool := (prodKeys pods).contains m.key
+
+theorem measuredProdUsage_eq (zero : Vec) (pods : List PodRef) (ms : List MetricEntry) :
+    measuredProdUsage zero pods ms = vsum zero ((ms.filter (countsAsProd pods)).map (·.use)) := rfl
+
+/-- a reported pod metric counts towards the node's prod usage exactly when a PROD pod assigned to
+    the node has the same namespace AND the same name.  (A non-prod pod that merely shares its name
+    with a prod pod of another namespace is not counted.) -/
+theorem countsAsProd_iff (pods : List PodRef) (m : MetricEntry) :
+    countsAsProd pods m = true ↔
+      ∃ p ∈ pods, p.prod = true ∧ p.key.1 = m.key.1 ∧ p.key.2 = m.key.2 := by
+  unfold countsAsProd prodKeys
+  rw [List.contains_iff_mem]
+  constructor
+  · intro h
+    obtain ⟨p, hp, hk⟩ := List.mem_map.mp h
+    obtain ⟨hp1, hp2⟩ := List.mem_filter.mp hp
+    exact ⟨p, hp1, hp2, by rw [hk], by rw [hk]⟩
+  · rintro ⟨p, hp, hprod, h1, h2⟩
+    exact List.mem_map.mpr ⟨p, List.mem_filter.mpr ⟨hp, hprod⟩, Prod.ext h1 h2⟩
+
+/-- an entry that is not the metric of a prod pod of the node — e.g. the metric of a batch pod
+    `dev/redis-0` next to the prod pod `prod/redis-0` — leaves the measured prod usage unchanged,
+    wherever it stands in the list. -/
+theorem measuredProdUsage_ignores (zero : Vec) (pods : List PodRef) (pre post : List MetricEntry)
+    (m : MetricEntry)
+    (h : ∀ p ∈ pods, p.prod = true → ¬ (p.key.1 = m.key.1 ∧ p.key.2 = m.key.2)) :
+    measuredProdUsage zero pods (pre ++ m :: post) = measuredProdUsage zero pods (pre ++ post) := by
+  have hm : countsAsProd pods m = false := by
+    cases hc : countsAsProd pods m with
+    | false => rfl
+    | true =>
+      obtain ⟨p, hp, hprod, hk⟩ := (countsAsProd_iff pods m).mp hc
+      exact absurd hk (h p hp hprod)
+  simp only [measuredProdUsage_eq, List.filter_append, List.filter_cons, hm]
+  simp
+
+/-- the node-level usage counts every reported entry. -/
+theorem measuredUsage_append (sys : Vec) (ms : List MetricEntry) (m : MetricEntry) :
+    measuredUsage sys (ms ++ [m]) = vadd (measuredUsage sys ms) m.use := by
+  simp [measuredUsage, vsum, List.foldl_append]
+
+/-- `podMetrics[namespace/name]`: some entry with exactly that key, and it is the LAST one. -/
+theorem podMetric?_some (ms : List MetricEntry) (k : Key) (v : Vec) (h : podMetric? ms k = some v) :
+    ∃ pre m post, ms = pre ++ m :: post ∧ m.key = k ∧ m.use = v ∧ ∀ x ∈ post, x.key ≠ k := by
+  induction ms with
+  | nil => simp [podMetric?] at h
+  | cons m ms ih =>
+    unfold podMetric? at h
+    cases hr : podMetric? ms k with
+    | some w =>
+      rw [hr] at h
+      simp only [Option.some.injEq] at h
+      subst h
+      obtain ⟨pre, x, post, he, hk, hu, hp⟩ := ih hr
+      exact ⟨m :: pre, x, post, by rw [he]; rfl, hk, hu, hp⟩
+    | none =>
+      rw [hr] at h
+      simp only at h
+      split at h
+      · rename_i hk
+        simp only [Option.some.injEq] at h
+        refine ⟨[], m, ms, rfl, hk, h, ?_⟩
+        intro x hx hxk
+        have : ∀ (l : List MetricEntry), podMetric? l k = none → ∀ y ∈ l, y.key ≠ k := by
+          intro l
+          induction l with
+          | nil => intro _ y hy; cases hy
+          | cons a l ihl =>
+            intro hn y hy
+            unfold podMetric? at hn
+            cases hl : podMetric? l k with
+            | some w => rw [hl] at hn; cases hn
+            | none =>
+              rw [hl] at hn
+              simp only at hn
+              rcases List.mem_cons.mp hy with rfl | hy'
+              · intro hyk; simp [hyk] at hn
+              · exact ihl hl y hy'
+        exact this ms hr x hx hxk
+      · cases h
+
+theorem podMetric?_none (ms : List MetricEntry) (k : Key) :
+    podMetric? ms k = none ↔ ∀ m ∈ ms, m.key ≠ k := by
+  induction ms with
+  | nil => simp [podMetric?]
+  | cons m ms ih =>
+    unfold podMetric?
+    cases hr : podMetric? ms k with
+    | some w =>
+      simp only [reduceCtorEq, false_iff]
+      intro hall
+      exact absurd (ih.mpr fun x hx => hall x (List.mem_cons_of_mem _ hx)) (by rw [hr]; simp)
+    | none =>
+      simp only
+      have hrest := ih.mp hr
+      by_cases hk : m.key = k
+      · simp [hk]
+      · simp only [hk, if_false, true_iff]
+        intro x hx
+        rcases List.mem_cons.mp hx with rfl | hx'
+        · exact hk
+        · exact hrest x hx'
+
+/-! ### which capacity: every percentage formula divides by the raw allocatable -/
+
+theorem capacity_always_raw (u : CapUse) (alloc : Vec) (a : RawAnno) :
+    capacityFor u alloc a = rawAllocatable alloc a := by
+  cases u <;> rfl
+
+/-- on an amplified node the amplified status.allocatable never enters for a resource the
+    (parsable) annotation names — and a resource it does not name keeps its status value. -/
+theorem overlay_get (alloc : Vec) (raw : List (Option Int)) (i : Nat) (hi : i < alloc.length) :
+    (overlay alloc raw)[i]? = some (((raw[i]?).getD none).getD (alloc[i]'hi)) := by
+  induction alloc generalizing raw i with
+  | nil => simp at hi
+  | cons a as ih =>
+    cases raw with
+    | nil => simp [overlay]
+    | cons r rs =>
+      cases i with
+      | zero => simp [overlay]
+      | succ j =>
+        simp only [overlay, List.getElem?_cons_succ, List.getElem_cons_succ]
+        exact ih rs j (by simpa using hi)
+
+theorem capacity_named_resource (u : CapUse) (alloc : Vec) (raw : List (Option Int)) (i : Nat) (v : Int)
+    (hi : i < alloc.length) (hv : raw[i]? = some (some v)) :
+    (capacityFor u alloc (.parsed raw))[i]? = some v := by
+  rw [capacity_always_raw]
+  simp [rawAllocatable, overlay_get alloc raw i hi, hv]
+
+theorem capacity_unnamed_resource (u : CapUse) (alloc : Vec) (raw : List (Option Int)) (i : Nat)
+    (hi : i < alloc.length) (hv : raw[i]? = some none ∨ raw[i]? = none) :
+    (capacityFor u alloc (.parsed raw))[i]? = some (alloc[i]'hi) := by
+  rw [capacity_always_raw]
+  rcases hv with hv | hv <;> simp [rawAllocatable, overlay_get alloc raw i hi, hv]
+
+-- cpu amplified x2, annotation names cpu and memory only: pods keeps the status value 110
+example : capacityFor .thresholds [128000, 8, 110] (.parsed [some 64000, some 8, none]) = [64000, 8, 110] := by decide
+
+-- non-vacuity: prod/redis-0 (prod) and dev/redis-0 (batch) on one node
+example : measuredProdUsage [0] [⟨(0, 7), true⟩, ⟨(1, 7), false⟩] [⟨(0, 7), [3000]⟩, ⟨(1, 7), [4000]⟩] = [3000] ∧
+    measuredUsage [500] [⟨(0, 7), [3000]⟩, ⟨(1, 7), [4000]⟩] = [7500] := by decide
+example : podMetric? [⟨(0, 7), [1]⟩, ⟨(1, 7), [2]⟩, ⟨(0, 7), [3]⟩] (0, 7) = some [3] := by decide
+
+/-! ### a drained source node has its detector reset (continueEvictionCond) -/
+
+theorem get?_set_eq (ds : Dets) (k : Nat) (d : Det) : Dets.get? (Dets.set ds k d) k = some d := by
+  induction ds with
+  | nil => simp [Dets.set, Dets.get?]
+  | cons x xs ih =>
+    rcases x with ⟨k', d'⟩
+    unfold Dets.set
+    by_cases h1 : k' = k
+    · simp [h1, Dets.get?]
+    · simp [h1, Dets.get?, ih]
+
+theorem reset_reset (d : Det) : d.reset.reset = d.reset := by
+  rcases d with ⟨a, x, y⟩
+  cases a <;> simp [Det.reset, Det.fresh]
+
+/-- resetNodesAsNormal: exactly the listed detectors are Reset(), nothing else changes. -/
+theorem resetAll_get (ds : Dets) (ids : List Nat) (k : Nat) :
+    Dets.get? (resetAll ds ids) k =
+      if k ∈ ids then (Dets.get? ds k).map Det.reset else Dets.get? ds k := by
+  unfold resetAll
+  induction ids generalizing ds with
+  | nil => simp
+  | cons n ns ih =>
+    simp only [List.foldl_cons]
+    rw [ih]
+    by_cases hnk : n = k
+    · subst hnk
+      cases hg : Dets.get? ds n with
+      | none => simp [hg]
+      | some d =>
+        simp only [get?_set_eq, Option.map_some, List.mem_cons, true_or, if_true]
+        split <;> simp [reset_reset]
+    · have hkn : ¬ k = n := fun h => hnk h.symm
+      cases hg : Dets.get? ds n with
+      | none => simp [hkn]
+      | some d => simp [hkn, get?_set_ne _ _ _ _ hnk]
+
+/-- "starts from scratch": state OK and no abnormal mark counted. -/
+def Det.Clean (d : Det) : Prop := d.anomaly = false ∧ d.cAbn = 0
+
+theorem markNorm_clean (c : Cond) (d : Det) (h : d.Clean) : (d.markNorm c).Clean := by
+  rcases d with ⟨a, x, y⟩
+  obtain ⟨h1, h2⟩ := h
+  simp only at h1 h2
+  subst h1; subst h2
+  simp [Det.markNorm, Det.current, Det.Clean]
+
+theorem markNormAll_clean (c : Option Cond) (ds : Dets) (ids : List Nat) (k : Nat) (d : Det)
+    (hg : Dets.get? ds k = some d) (hc : d.Clean) :
+    ∃ d', Dets.get? (markNormAll c ds ids) k = some d' ∧ d'.Clean := by
+  cases c with
+  | none => exact ⟨d, hg, hc⟩
+  | some c =>
+    simp only [markNormAll]
+    induction ids generalizing ds d with
+    | nil => exact ⟨d, hg, hc⟩
+    | cons n ns ih =>
+      simp only [List.foldl_cons]
+      by_cases hnk : n = k
+      · subst hnk
+        rw [hg]
+        exact ih _ _ (get?_set_eq _ _ _) (markNorm_clean c d hc)
+      · cases hn : Dets.get? ds n with
+        | none => exact ih _ _ hg hc
+        | some x => exact ih _ _ (by rw [get?_set_ne _ _ _ _ hnk]; exact hg) hc
+
+/-- a clean detector does not answer "anomaly" to the next abnormal mark when more than one
+    abnormality is required. -/
+theorem clean_markAbn (c : Cond) (d : Det) (h : d.Clean) (h2 : 1 ≤ c.abn) :
+    (d.markAbn c).anomaly = false := by
+  rcases d with ⟨a, x, y⟩
+  obtain ⟨h1, h3⟩ := h
+  simp only at h1 h3
+  subst h1; subst h3
+  have : ¬ (c.abn < 1) := by omega
+  simp [Det.markAbn, Det.current, this]
+
+theorem filterAbnormal_get_other (c : Cond) (src : List Node) (ds : Dets) (k : Nat)
+    (hk : k ∉ src.map (·.id)) : Dets.get? (filterAbnormal c ds src).2 k = Dets.get? ds k := by
+  induction src generalizing ds with
+  | nil => simp [filterAbnormal]
+  | cons s ss ih =>
+    simp only [List.map_cons, List.mem_cons, not_or] at hk
+    unfold filterAbnormal
+    simp only
+    rw [ih _ hk.2, get?_set_ne _ _ _ _ (fun h => hk.1 h.symm)]
+
+/-- a node that filterRealAbnormalNodes lets through has its (cached) detector in state Anomaly. -/
+theorem filterAbnormal_get (c : Cond) (src : List Node) (ds : Dets) (n : Node)
+    (hnd : (src.map (·.id)).Nodup) (h : n ∈ (filterAbnormal c ds src).1) :
+    ∃ d, Dets.get? (filterAbnormal c ds src).2 n.id = some d ∧ d.anomaly = true := by
+  induction src generalizing ds with
+  | nil => simp [filterAbnormal] at h
+  | cons s ss ih =>
+    simp only [List.map_cons, List.nodup_cons] at hnd
+    unfold filterAbnormal at h ⊢
+    simp only at h ⊢
+    split at h
+    · rename_i hd
+      rcases List.mem_cons.mp h with rfl | h'
+      · refine ⟨_, ?_, hd⟩
+        rw [filterAbnormal_get_other _ _ _ _ hnd.1, get?_set_eq]
+      · exact ih _ hnd.2 h'
+    · exact ih _ hnd.2 h
+
+theorem balanceLoop_resets_sub (dry nodeFit prod : Bool) (order : Nat → List Nat) (src : List Node)
+    (tg : List Tgt) (avail : Vec) (id : Nat)
+    (h : id ∈ (balanceLoop dry nodeFit prod order tg avail src).resets) : ∃ s ∈ src, s.id = id := by
+  induction src generalizing tg avail with
+  | nil => simp [balanceLoop] at h
+  | cons s ss ih =>
+    unfold balanceLoop at h
+    simp only at h
+    generalize (if prod = true then List.filter (fun x => x.prod) s.pods else s.pods) = all at h
+    generalize removable nodeFit tg all = rm at h
+    by_cases hE : rm.fst.isEmpty = true
+    · rw [if_pos hE] at h
+      obtain ⟨s', hs', hid⟩ := ih _ _ h
+      exact ⟨s', List.mem_cons_of_mem _ hs', hid⟩
+    · rw [if_neg hE] at h
+      rcases List.mem_append.mp h with h1 | h1
+      · by_cases hr : (evictLoop dry prod s.id (if prod = true then s.phigh else s.high)
+            (if prod = true then s.prodUsage else s.usage) avail (applyOrder (order s.id) rm.fst)).relieved = true
+        · simp only [hr, if_true, List.mem_singleton] at h1
+          exact ⟨s, by simp, h1.symm⟩
+        · simp [hr] at h1
+      · obtain ⟨s', hs', hid⟩ := ih _ _ h1
+        exact ⟨s', List.mem_cons_of_mem _ hs', hid⟩
+
+theorem balancePods_resets_sub (dry nodeFit prod : Bool) (order : Nat → List Nat) (src : List Node)
+    (tg : List Tgt) (avail : Vec) (id : Nat)
+    (h : id ∈ (balancePods dry nodeFit prod order tg avail src).resets) : ∃ s ∈ src, s.id = id := by
+  unfold balancePods at h
+  split at h
+  · cases h
+  · exact balanceLoop_resets_sub _ _ _ _ _ _ _ _ h
+
+/-- the loop reports "relieved" only when the node's running usage — the initial estimate minus
+    everything the successful calls moved — is at or under the high threshold. -/
+theorem evictLoop_relieved (prod : Bool) (nid : Nat) (high : Vec) (ps : List Pod) (cur avail : Vec)
+    (h : (evictLoop false prod nid high cur avail ps).relieved = true) :
+    over (finalAvail cur (evictLoop false prod nid high cur avail ps).evs) high = false := by
+  induction ps generalizing cur avail with
+  | nil => simp [evictLoop] at h
+  | cons p ps ih =>
+    unfold evictLoop at h ⊢
+    by_cases h1 : over cur high = true
+    case neg => simpa [h1, finalAvail] using h1
+    by_cases h2 : allPos avail = true
+    case neg => simp [h1, h2] at h
+    by_cases h3 : p.filt2 = true
+    case neg =>
+      simp only [h1, h2, h3, Bool.not_true, Bool.not_false, Bool.false_eq_true, if_false, if_true] at h ⊢
+      exact ih _ _ h
+    simp only [h1, h2, h3, Bool.not_true, Bool.false_eq_true, if_false] at h ⊢
+    by_cases h5 : (p.evictOK && p.hasMetric) = true
+    · simp only [h5, if_true] at h ⊢
+      simpa [finalAvail, Ev.after, h5] using ih _ _ h
+    · simp only [h5, Bool.false_eq_true, if_false] at h ⊢
+      simpa [finalAvail, Ev.after, h5] using ih _ _ h
+
+/-- the detector state a drained source node is left with at the end of the round: Reset() took it
+    from Anomaly to OK with cleared counters, tryMarkNodesAsNormal only adds a normal mark. -/
+def DrainedClean (ds : Dets) (id : Nat) : Prop := ∃ d, Dets.get? ds id = some d ∧ d.Clean
+
+theorem resetAll_keeps (ds : Dets) (l : List Nat) (id : Nat) (d0 d : Det)
+    (hg : Dets.get? ds id = some d) (hq : d = d0 ∨ d = d0.reset) :
+    ∃ d', Dets.get? (resetAll ds l) id = some d' ∧ (d' = d0 ∨ d' = d0.reset) := by
+  rw [resetAll_get, hg]
+  split
+  · refine ⟨d.reset, rfl, Or.inr ?_⟩
+    rcases hq with rfl | rfl
+    · rfl
+    · exact reset_reset _
+  · exact ⟨d, rfl, hq⟩
+
+theorem resetAll_hit (ds : Dets) (l : List Nat) (id : Nat) (d0 d : Det)
+    (hg : Dets.get? ds id = some d) (hq : d = d0 ∨ d = d0.reset) (hid : id ∈ l) :
+    Dets.get? (resetAll ds l) id = some d0.reset := by
+  rw [resetAll_get, hg, if_pos hid]
+  rcases hq with rfl | rfl
+  · rfl
+  · simp [reset_reset]
+
+theorem reset_anomalous (d : Det) (h : d.anomaly = true) : d.reset = Det.fresh := by
+  simp [Det.reset, h]
+
+/-- `drained_node_detector_reset`: in a round that evicts (anomaly condition other than "1
+    abnormality", distinct node names), every source node whose eviction loop ended because its
+    running usage was back at/under the high threshold leaves the round with a CLEAN detector of
+    the pass's own kind — node pass: node detector, PROD pass: PROD detector — so it has to prove
+    itself abnormal again. -/
+theorem drained_node_detector_reset (cfg : Cfg) (st : St) (r : RoundIn) (c : Cond)
+    (hc : cfg.cond = some c) (h1 : c.abn ≠ 1) (hnd : (r.nodes.map (·.id)).Nodup) :
+    (∀ id ∈ (runRound cfg st r).nodeResets, DrainedClean (runRound cfg st r).st.nodeDet id) ∧
+    (∀ id ∈ (runRound cfg st r).prodResets, DrainedClean (runRound cfg st r).st.prodDet id) := by
+  have sub : ∀ k, ((ofClass k r.nodes).map (·.id)).Nodup := fun k =>
+    hnd.sublist ((List.filter_sublist (l := r.nodes)).map _)
+  unfold runRound
+  split
+  · refine ⟨fun id h => ?_, fun id h => ?_⟩ <;> simp at h
+  simp only
+  split
+  · refine ⟨fun id h => ?_, fun id h => ?_⟩ <;> simp at h
+  split
+  · refine ⟨fun id h => ?_, fun id h => ?_⟩ <;> simp at h
+  split
+  · refine ⟨fun id h => ?_, fun id h => ?_⟩ <;> simp at h
+  split
+  · refine ⟨fun id h => ?_, fun id h => ?_⟩ <;> simp at h
+  split
+  · refine ⟨fun id h => ?_, fun id h => ?_⟩ <;> simp at h
+  simp only [evictFromSources]
+  simp only [hc, filterRealAbnormal, h1, if_false]
+  constructor
+  · intro id hid
+    obtain ⟨s, hs, hsid⟩ := balancePods_resets_sub _ _ _ _ _ _ _ _ hid
+    obtain ⟨d0, hg, ha⟩ := filterAbnormal_get c _ st.nodeDet s (sub _) (sortSources_sub _ _ _ _ hs)
+    rw [hsid] at hg
+    obtain ⟨d1, hg1, hq1⟩ := resetAll_keeps _ (List.map (fun x => x.id) (ofClass Cls.low r.nodes)) id d0 d0 hg (Or.inl rfl)
+    obtain ⟨d2, hg2, hq2⟩ := resetAll_keeps _ (List.map (fun x => x.id) (ofClass Cls.bothLow r.nodes)) id d0 d1 hg1 hq1
+    have hg3 := resetAll_hit _ _ id d0 d2 hg2 hq2 hid
+    rw [reset_anomalous d0 ha] at hg3
+    exact markNormAll_clean (some c) _ _ _ _ hg3 ⟨rfl, rfl⟩
+  · intro id hid
+    obtain ⟨s, hs, hsid⟩ := balancePods_resets_sub _ _ _ _ _ _ _ _ hid
+    obtain ⟨d0, hg, ha⟩ := filterAbnormal_get c _ st.prodDet s (sub _) (sortSources_sub _ _ _ _ hs)
+    rw [hsid] at hg
+    obtain ⟨d1, hg1, hq1⟩ := resetAll_keeps _ (List.map (fun x => x.id) (ofClass Cls.prodLow r.nodes)) id d0 d0 hg (Or.inl rfl)
+    have hg3 := resetAll_hit _ _ id d0 d1 hg1 hq1 hid
+    rw [reset_anomalous d0 ha] at hg3
+    exact markNormAll_clean (some c) _ _ _ _ hg3 ⟨rfl, rfl⟩
+
+/-- what "drained" means: a node is in the reset list of a pass only if the running usage its own
+    eviction loop ended with (initial estimate minus what its successful calls moved) is at or under
+    its (prod) high threshold. -/
+theorem balanceLoop_resets_drained (nodeFit prod : Bool) (order : Nat → List Nat) (src : List Node)
+    (tg : List Tgt) (avail : Vec) (id : Nat)
+    (h : id ∈ (balanceLoop false nodeFit prod order tg avail src).resets) :
+    ∃ s ∈ src, s.id = id ∧ ∃ av ps,
+      over (finalAvail (if prod then s.prodUsage else s.usage)
+        (evictLoop false prod s.id (if prod then s.phigh else s.high)
+          (if prod then s.prodUsage else s.usage) av ps).evs) (if prod then s.phigh else s.high) = false := by
+  induction src generalizing tg avail with
+  | nil => simp [balanceLoop] at h
+  | cons s ss ih =>
+    unfold balanceLoop at h
+    simp only at h
+    generalize (if prod = true then List.filter (fun x => x.prod) s.pods else s.pods) = all at h
+    generalize removable nodeFit tg all = rm at h
+    by_cases hE : rm.fst.isEmpty = true
+    · rw [if_pos hE] at h
+      obtain ⟨s', hs', r⟩ := ih _ _ h
+      exact ⟨s', List.mem_cons_of_mem _ hs', r⟩
+    · rw [if_neg hE] at h
+      rcases List.mem_append.mp h with h1 | h1
+      · by_cases hr : (evictLoop false prod s.id (if prod = true then s.phigh else s.high)
+            (if prod = true then s.prodUsage else s.usage) avail (applyOrder (order s.id) rm.fst)).relieved = true
+        · simp only [hr, if_true, List.mem_singleton] at h1
+          exact ⟨s, by simp, h1.symm, avail, _, evictLoop_relieved _ _ _ _ _ _ hr⟩
+        · simp [hr] at h1
+      · obtain ⟨s', hs', r⟩ := ih _ _ h1
+        exact ⟨s', List.mem_cons_of_mem _ hs', r⟩
+
+/-- consequence for the NEXT round (whatever it looks like): with at least two required
+    abnormalities, a node drained in this round's node (prod) pass is not evicted from in the next
+    round's node (prod) pass — its first new overload only counts as mark number one. -/
+theorem drained_node_not_evicted_next_round (cfg : Cfg) (st : St) (r r' : RoundIn) (c : Cond)
+    (hc : cfg.cond = some c) (h2 : 2 ≤ c.abn)
+    (hnd : (r.nodes.map (·.id)).Nodup) (hnd' : (r'.nodes.map (·.id)).Nodup)
+    (e : Ev) (he : e ∈ (runRound cfg (runRound cfg st r).st r').evs) :
+    (e.prod = false → e.node ∉ (runRound cfg st r).nodeResets) ∧
+    (e.prod = true → e.node ∉ (runRound cfg st r).prodResets) := by
+  obtain ⟨hN, hP⟩ := drained_node_detector_reset cfg st r c hc (by omega) hnd
+  obtain ⟨n, _, hid, hm⟩ := round_evict_gated cfg (runRound cfg st r).st r' c hc (by omega) hnd' e he
+  constructor
+  · intro hpr hmem
+    obtain ⟨d, hg, hcl⟩ := hN _ hmem
+    rw [hpr, hid] at hm
+    simp only [Bool.false_eq_true, if_false, hg, Option.getD_some] at hm
+    rw [clean_markAbn c d hcl (by omega)] at hm
+    cases hm
+  · intro hpr hmem
+    obtain ⟨d, hg, hcl⟩ := hP _ hmem
+    rw [hpr, hid] at hm
+    simp only [if_true, hg, Option.getD_some] at hm
+    rw [clean_markAbn c d hcl (by omega)] at hm
+    cases hm
+
+-- non-vacuity of `drained_node_detector_reset`: consecutiveAbnormalities = 2, node 1 is prod-overloaded for
+-- three rounds; round 3 evicts one pod, the second candidate finds the node relieved ⇒ prod detector reset
+namespace Witness
+def pp1 : Pod := ⟨1, true, true, [30], [30], true, true, true⟩
+def pp2 : Pod := ⟨2, true, true, [5], [5], true, true, true⟩
+def phot : Node := ⟨1, false, false, [50], [40], [30], [60], [10], [20], [pp1, pp2]⟩
+def rProd : RoundIn := ⟨2, false, 1, [cold, phot], [], fun _ => [], fun _ => 0, fun _ => 0, fun _ => []⟩
+end Witness
+example :
+    let r3 := runRound Witness.cfg (runRound Witness.cfg (runRound Witness.cfg ⟨[], []⟩ Witness.rProd).st Witness.rProd).st Witness.rProd
+    r3.prodResets = [1] ∧ r3.nodeResets = [] ∧ r3.evs.length = 1 ∧
+      Dets.get? r3.st.prodDet 1 = some ⟨false, 0, 1⟩ ∧
+      (runRound Witness.cfg r3.st Witness.rProd).evs = [] := by decide
+
+
+/-! ### sort orders: who is evicted first -/
+
+theorem pairwise_insertBy {α} (le : α → α → Bool)
+    (htot : ∀ a b, le a b = true ∨ le b a = true)
+    (htr : ∀ a b c, le a b = true → le b c = true → le a c = true)
+    (x : α) (l : List α) (h : l.Pairwise (fun a b => le a b = true)) :
+    (insertBy le x l).Pairwise (fun a b => le a b = true) := by
+  induction l with
+  | nil => simp [insertBy]
+  | cons y ys ih =>
+    unfold insertBy
+    obtain ⟨hy, hys⟩ := List.pairwise_cons.mp h
+    by_cases hxy : le x y = true
+    · rw [if_pos hxy]
+      refine List.pairwise_cons.mpr ⟨?_, h⟩
+      intro z hz
+      rcases List.mem_cons.mp hz with rfl | hz'
+      · exact hxy
+      · exact htr _ _ _ hxy (hy z hz')
+    · rw [if_neg hxy]
+      have hyx : le y x = true := (htot x y).resolve_left hxy
+      refine List.pairwise_cons.mpr ⟨?_, ih hys⟩
+      intro z hz
+      rcases (mem_insertBy le x z ys).mp hz with rfl | hz'
+      · exact hyx
+      · exact hy z hz'
+
+theorem pairwise_sortBy {α} (le : α → α → Bool)
+    (htot : ∀ a b, le a b = true ∨ le b a = true)
+    (htr : ∀ a b c, le a b = true → le b c = true → le a c = true) (l : List α) :
+    (sortBy le l).Pairwise (fun a b => le a b = true) := by
+  induction l with
+  | nil => simp [sortBy]
+  | cons x xs ih => exact pairwise_insertBy le htot htr x _ ih
+
+/-- sortNodesByUsage: the source nodes are processed in non-increasing score order. -/
+theorem sources_sorted (score : Nat → Int) (ord : List Nat) (ns : List Node) :
+    (sortSources score ord ns).Pairwise (fun a b => score a.id ≥ score b.id) := by
+  have := pairwise_sortBy (fun (a b : Node) => decide (score a.id ≥ score b.id))
+    (by intro a b; simp only [decide_eq_true_eq]; omega)
+    (by intro a b c; simp only [decide_eq_true_eq]; omega) (orderNodes ord ns)
+  simpa [sortSources] using this
+
+theorem lexLe_total (a b : List Int) : lexLe a b = true ∨ lexLe b a = true := by
+  induction a generalizing b with
+  | nil => simp [lexLe]
+  | cons x xs ih =>
+    cases b with
+    | nil => simp [lexLe]
+    | cons y ys =>
+      unfold lexLe
+      by_cases h1 : x < y
+      · simp [h1]
+      · by_cases h2 : y < x
+        · simp [h2]
+        · simpa [h1, h2] using ih ys
+
+theorem lexLe_trans (a b c : List Int) (h1 : lexLe a b = true) (h2 : lexLe b c = true) :
+    lexLe a c = true := by
+  induction a generalizing b c with
+  | nil => simp [lexLe]
+  | cons x xs ih =>
+    cases b with
+    | nil => simp [lexLe] at h1
+    | cons y ys =>
+      cases c with
+      | nil => simp [lexLe] at h2
+      | cons z zs =>
+        unfold lexLe at h1 h2 ⊢
+        by_cases hxy : x < y
+        · by_cases hyz : y < z
+          · have : x < z := by omega
+            simp [this]
+          · by_cases hzy : z < y
+            · simp [hyz, hzy] at h2
+            · have : x < z := by omega
+              simp [this]
+        · by_cases hyx : y < x
+          · simp [hxy, hyx] at h1
+          · have hxe : x = y := by omega
+            subst hxe
+            simp only [hxy, if_false] at h1
+            by_cases hyz : x < z
+            · simp [hyz]
+            · by_cases hzy : z < x
+              · simp [hyz, hzy] at h2
+              · simp only [hyz, hzy, if_false] at h2 ⊢
+                exact ih _ _ h1 h2
+
+/-- sortPodsOnOneOverloadedNode: the pod ids handed to the eviction loop are in ascending key
+    order (lowest priority class, then lowest priority, then lowest deletion / eviction cost,
+    then pods with a metric, then highest usage score first). -/
+theorem podOrder_sorted (key : Nat → List Int) (obs : List Nat) (ps : List Pod) :
+    (podOrder key obs ps).Pairwise (fun i j => lexLe (key i) (key j) = true) := by
+  have := pairwise_sortBy (fun (a b : Pod) => lexLe (key a.id) (key b.id))
+    (fun a b => lexLe_total _ _) (fun a b c => lexLe_trans _ _ _) (applyOrder obs ps)
+  unfold podOrder
+  exact List.pairwise_map.mpr this
+
+/-- every pod of the node is in the order list, so `applyOrder` takes all of its output from it. -/
+theorem podOrder_complete (key : Nat → List Int) (obs : List Nat) (ps : List Pod) (p : Pod)
+    (hp : p ∈ ps) : p.id ∈ podOrder key obs ps := by
+  unfold podOrder
+  suffices h : ∃ q ∈ applyOrder obs ps, q.id = p.id by
+    obtain ⟨q, hq, hid⟩ := h
+    exact List.mem_map.mpr ⟨q, (mem_sortBy _ _ _).mpr hq, hid⟩
+  unfold applyOrder
+  by_cases h : obs.contains p.id = true
+  · cases hf : ps.find? (fun x => decide (x.id = p.id)) with
+    | none =>
+      have := List.find?_eq_none.mp hf p hp
+      simp at this
+    | some q =>
+      have hq : q.id = p.id := by simpa using List.find?_some hf
+      refine ⟨q, List.mem_append.mpr (Or.inl ?_), hq⟩
+      exact List.mem_filterMap.mpr ⟨p.id, by simpa using h, hf⟩
+  · exact ⟨p, List.mem_append.mpr (Or.inr (List.mem_filter.mpr ⟨hp, by simpa using h⟩)), rfl⟩
+
+/-- restricting a sorted id list to the removable pods keeps it sorted (and nothing is appended
+    when the list names every pod). -/
+theorem applyOrder_sorted (R : Nat → Nat → Prop) (ord : List Nat) (ps : List Pod)
+    (hord : ord.Pairwise R) (hall : ∀ p ∈ ps, p.id ∈ ord) :
+    (applyOrder ord ps).Pairwise (fun p q => R p.id q.id) := by
+  unfold applyOrder
+  have hrest : ps.filter (fun p => !ord.contains p.id) = [] := by
+    apply List.filter_eq_nil_iff.mpr
+    intro p hp
+    simpa using hall p hp
+  rw [hrest, List.append_nil]
+  refine List.Pairwise.filterMap _ ?_ hord
+  intro i j hij p hp q hq
+  have h1 : p.id = i := by simpa using List.find?_some hp
+  have h2 : q.id = j := by simpa using List.find?_some hq
+  rw [h1, h2]; exact hij
+
+/-- the Evict calls of one source node follow the order of its pod list. -/
+theorem evictLoop_order (R : Nat → Nat → Prop) (dry prod : Bool) (nid : Nat) (high : Vec) (ps : List Pod)
+    (cur avail : Vec) (h : ps.Pairwise (fun p q => R p.id q.id)) :
+    (evictLoop dry prod nid high cur avail ps).evs.Pairwise (fun e e' => R e.pod e'.pod) := by
+  induction ps generalizing cur avail with
+  | nil => simp [evictLoop]
+  | cons p ps ih =>
+    obtain ⟨hp, hps⟩ := List.pairwise_cons.mp h
+    unfold evictLoop
+    by_cases h1 : over cur high = true
+    case neg => simp [h1]
+    by_cases h2 : allPos avail = true
+    case neg => simp [h1, h2]
+    by_cases h3 : p.filt2 = true
+    case neg => simpa [h1, h2, h3] using ih cur avail hps
+    simp only [h1, h2, h3, Bool.not_true, Bool.false_eq_true, if_false]
+    cases dry with
+    | true =>
+      simp only [if_true]
+      split <;> exact ih _ _ hps
+    | false =>
+      simp only [Bool.false_eq_true, if_false]
+      refine List.pairwise_cons.mpr ⟨?_, ?_⟩
+      · intro e' he'
+        have : ∃ q ∈ ps, q.id = e'.pod := by
+          split at he'
+          · obtain ⟨_, _, _, _, _, _, q, hq, hid, _⟩ := evictLoop_sound _ _ _ _ _ _ _ e' he'
+            exact ⟨q, hq, hid⟩
+          · obtain ⟨_, _, _, _, _, _, q, hq, hid, _⟩ := evictLoop_sound _ _ _ _ _ _ _ e' he'
+            exact ⟨q, hq, hid⟩
+        obtain ⟨q, hq, hid⟩ := this
+        rw [← hid]
+        exact hp q hq
+      · split <;> exact ih _ _ hps
+
+/-- WHO goes first on one source node: whatever subset `rem` of the node's pods `all` is
+    removable, and whatever the observed order, the Evict calls come in ascending pod-key order. -/
+theorem source_node_evictions_sorted (key : Nat → List Int) (obs : List Nat) (all rem : List Pod)
+    (hsub : ∀ p ∈ rem, p ∈ all) (dry prod : Bool) (nid : Nat) (high cur avail : Vec) :
+    (evictLoop dry prod nid high cur avail (applyOrder (podOrder key obs all) rem)).evs.Pairwise
+      (fun e e' => lexLe (key e.pod) (key e'.pod) = true) :=
+  evictLoop_order (fun i j => lexLe (key i) (key j) = true) _ _ _ _ _ _ _
+    (applyOrder_sorted _ _ _ (podOrder_sorted key obs all)
+      (fun p hp => podOrder_complete key obs all p (hsub p hp)))
+
+/-- WHO goes first among the source nodes of a pass: the Evict calls come in the order of the
+    source list. -/
+theorem balanceLoop_order (f : Nat → Int) (dry nodeFit prod : Bool) (order : Nat → List Nat) (src : List Node)
+    (tg : List Tgt) (avail : Vec) (h : src.Pairwise (fun a b => f a.id ≥ f b.id)) :
+    (balanceLoop dry nodeFit prod order tg avail src).evs.Pairwise (fun e e' => f e.node ≥ f e'.node) := by
+  induction src generalizing tg avail with
+  | nil => simp [balanceLoop]
+  | cons s ss ih =>
+    obtain ⟨hs, hss⟩ := List.pairwise_cons.mp h
+    unfold balanceLoop
+    simp only
+    generalize (if prod = true then List.filter (fun x => x.prod) s.pods else s.pods) = all
+    generalize removable nodeFit tg all = rm
+    by_cases hE : rm.fst.isEmpty = true
+    · rw [if_pos hE]; exact ih _ _ hss
+    · rw [if_neg hE]
+      simp only
+      refine List.pairwise_append.mpr ⟨?_, ih _ _ hss, ?_⟩
+      · refine List.Pairwise.imp_of_mem ?_ (List.pairwise_of_forall (R := fun _ _ => True) (fun _ _ => trivial))
+        intro e e' he he' _
+        obtain ⟨_, _, _, hn, _⟩ := evictLoop_sound _ _ _ _ _ _ _ e he
+        obtain ⟨_, _, _, hn', _⟩ := evictLoop_sound _ _ _ _ _ _ _ e' he'
+        rw [hn, hn']; exact Int.le_refl _
+      · intro e he e' he'
+        obtain ⟨_, _, _, hn, _⟩ := evictLoop_sound _ _ _ _ _ _ _ e he
+        obtain ⟨_, _, _, _, s', hs', hid, _⟩ := balanceLoop_sound _ _ _ _ _ _ _ e' he'
+        rw [hn, ← hid]
+        exact hs s' hs'
+
+theorem balancePods_order (f : Nat → Int) (dry nodeFit prod : Bool) (order : Nat → List Nat) (src : List Node)
+    (tg : List Tgt) (avail : Vec) (h : src.Pairwise (fun a b => f a.id ≥ f b.id)) :
+    (balancePods dry nodeFit prod order tg avail src).evs.Pairwise (fun e e' => f e.node ≥ f e'.node) := by
+  unfold balancePods
+  split
+  · simp
+  · exact balanceLoop_order f _ _ _ _ _ _ _ h
+
+/-- the whole round: within the node pass the Evict calls go through the source nodes in
+    non-increasing usage score (`nscore`), within the prod pass in non-increasing prod-usage score
+    (`pscore`) — so when the receivers' headroom runs out, it is the lower-scored nodes that are
+    left alone.  (The node pass precedes the prod pass.) -/
+theorem round_sources_by_score (cfg : Cfg) (st : St) (r : RoundIn) :
+    (runRound cfg st r).evs.Pairwise (fun e e' =>
+      (e.prod = true → e'.prod = true) ∧
+      (e.prod = false → e'.prod = false → r.nscore e.node ≥ r.nscore e'.node) ∧
+      (e.prod = true → e'.prod = true → r.pscore e.node ≥ r.pscore e'.node)) := by
+  unfold runRound
+  split
+  · simp
+  simp only
+  split
+  · simp
+  split
+  · simp
+  split
+  · simp
+  split
+  · simp
+  split
+  · simp
+  simp only [evictFromSources]
+  refine List.pairwise_append.mpr ⟨?_, ?_, ?_⟩
+  · refine List.Pairwise.imp_of_mem ?_ (balancePods_order r.nscore _ _ _ _ _ _ _ (sources_sorted _ _ _))
+    intro e e' he he' hsc
+    have h1 : e.prod = false := (balancePods_sound _ _ _ _ _ _ _ _ he).2.2.1
+    have h2 : e'.prod = false := (balancePods_sound _ _ _ _ _ _ _ _ he').2.2.1
+    exact ⟨by simp [h1], fun _ _ => hsc, by simp [h1]⟩
+  · refine List.Pairwise.imp_of_mem ?_ (balancePods_order r.pscore _ _ _ _ _ _ _ (sources_sorted _ _ _))
+    intro e e' he he' hsc
+    have h1 : e.prod = true := (balancePods_sound _ _ _ _ _ _ _ _ he).2.2.1
+    have h2 : e'.prod = true := (balancePods_sound _ _ _ _ _ _ _ _ he').2.2.1
+    exact ⟨fun _ => h2, by simp [h1], fun _ _ => hsc⟩
+  · intro e he e' he'
+    have h1 : e.prod = false := (balancePods_sound _ _ _ _ _ _ _ _ he).2.2.1
+    have h2 : e'.prod = true := (balancePods_sound _ _ _ _ _ _ _ _ he').2.2.1
+    exact ⟨fun _ => h2, by simp [h2], by simp [h1]⟩
+
+/-- the score is a per-mille value: between 0 and 1000 for non-negative usages, capacities, weights. -/
+theorem mostRequestedScore_range (req cap : Int) (h1 : 0 ≤ req) (h2 : 0 ≤ cap) :
+    0 ≤ mostRequestedScore req cap ∧ mostRequestedScore req cap ≤ 1000 := by
+  unfold mostRequestedScore
+  by_cases hc : cap = 0
+  · simp [hc]
+  · simp only [hc, if_false]
+    have hpos : 0 < cap := by omega
+    by_cases hr : req > cap
+    · simp only [hr, if_true]
+      rw [Int.tdiv_eq_ediv_of_nonneg (by omega)]
+      have : cap * 1000 / cap = 1000 := Int.mul_ediv_cancel_left 1000 hc
+      omega
+    · simp only [hr, if_false]
+      rw [Int.tdiv_eq_ediv_of_nonneg (by omega)]
+      constructor
+      · exact Int.ediv_nonneg (by omega) (by omega)
+      · have : req * 1000 ≤ 1000 * cap := by omega
+        calc req * 1000 / cap ≤ 1000 * cap / cap := Int.ediv_le_ediv hpos this
+          _ = 1000 := Int.mul_ediv_cancel 1000 hc
+
+-- non-vacuity: two sources with scores 700 / 300 (observed in the "wrong" order) and pod keys
+example : (sortSources (fun i => if i = 1 then 300 else 700) [1, 2]
+    [⟨1, false, false, [], [], [], [], [], [], []⟩, ⟨2, false, false, [], [], [], [], [], [], []⟩]).map (·.id) = [2, 1] := by decide
+example : podOrder (fun i => if i = 5 then [4, 0] else if i = 6 then [2, 7] else [2, 3]) [5, 6, 7]
+    [⟨5, true, true, [], [], true, true, true⟩, ⟨6, false, true, [], [], true, true, true⟩,
+     ⟨7, false, true, [], [], true, true, true⟩] = [7, 6, 5] := by decide
+example : usageScore [(500, 1000, 1), (3, 4, 1), (0, 0, 5)] = 178 := by decide
 
 end KoordVerif.C18
